@@ -110,6 +110,15 @@ Proof.
   split; [|reflexivity]. intros canc s m _. simpl. destruct m; try reflexivity. destruct k; try reflexivity; exact I.
 Qed.
 
+(* the handler loops: they keep receiving after a failed write *)
+Lemma handler_good : good_node (handler_node (S:=st) (M:=msg) true).
+Proof. intros canc s m. simpl. rewrite andb_false_r. discriminate. Qed.
+Lemma handler_nofault : nofault_node (handler_node (S:=st) (M:=msg) true).
+Proof. split; [|reflexivity]. intros canc s m _. simpl. rewrite andb_false_r. reflexivity. Qed.
+(* a handler that returns at the first failed write abandons the pipeline *)
+Lemma handler_must_keep_receiving : ~ good_node (handler_node (S:=st) (M:=msg) false).
+Proof. intros H. apply (H true st0 (MStr false)). reflexivity. Qed.
+
 (* ------------------------------------------------------------------ FixPeriodPlanner *)
 Lemma fix_good : forall c, good_node (fixperiod_node c).
 Proof.
@@ -188,7 +197,7 @@ Ltac fcons := apply Forall_cons; [simpl|].
 Lemma stages_good : forall sh c, Forall (fun x => good_node (c_node x)) (stages_of sh c).
 Proof.
   intros sh c. destruct sh; simpl;
-    repeat (fcons; [first [apply scan_good | apply (wrap_good true) | apply fix_good | apply enc_good]|]);
+    repeat (fcons; [first [apply scan_good | apply (wrap_good true) | apply fix_good | apply enc_good | apply handler_good]|]);
     constructor.
 Qed.
 
@@ -200,16 +209,16 @@ Qed.
 Lemma stages_nofault : forall sh c, shape_guard sh c = true -> Forall (fun x => nofault_node (c_node x)) (stages_of sh c).
 Proof.
   intros sh c Hg. destruct sh; simpl in *.
-  - fcons; [apply scan_nofault|]. fcons; [apply enc_nofault|]. constructor.
+  - fcons; [apply scan_nofault|]. fcons; [apply enc_nofault|]. fcons; [apply handler_nofault|]. constructor.
   - fcons; [apply scan_nofault|]. fcons; [apply wrap_nofault, parser_nofatal|].
     fcons; [apply wrap_nofault, limit_nofatal|]. fcons; [apply wrap_nofault, optimizer_nofatal|].
-    fcons; [apply enc_nofault|]. constructor.
+    fcons; [apply enc_nofault|]. fcons; [apply handler_nofault|]. constructor.
   - fcons; [apply scan_nofault|]. fcons; [apply wrap_nofault, zero_eater_nofatal|].
-    fcons; [apply fix_nofault; exact Hg|]. fcons; [apply enc_nofault|]. constructor.
+    fcons; [apply fix_nofault; exact Hg|]. fcons; [apply enc_nofault|]. fcons; [apply handler_nofault|]. constructor.
   - apply andb_prop in Hg. destruct Hg as [Hg Hs]. apply Z.leb_le in Hs.
     fcons; [apply scan_nofault|]. fcons; [apply wrap_nofault, parser_nofatal|].
     fcons; [apply wrap_nofault, agg_nofatal; exact Hs|]. fcons; [apply wrap_nofault, zero_eater_nofatal|].
-    fcons; [apply fix_nofault; exact Hg|]. fcons; [apply enc_nofault|]. constructor.
+    fcons; [apply fix_nofault; exact Hg|]. fcons; [apply enc_nofault|]. fcons; [apply handler_nofault|]. constructor.
 Qed.
 
 (* what the controller lets through *)
@@ -250,7 +259,7 @@ Notation configT := (config st msg).
 Lemma read_chain_terminates : forall sh c rows, shape_guard sh c = true ->
   let c0 := init_config (map MRow rows) (stages_of sh c) in
   Acc (fun c' c1 : configT => step c1 c') c0 /\
-  forall cf, star c0 cf -> crashed cf = false /\ (stuck cf -> all_done (cells cf)).
+  forall cf, star c0 cf -> crashed cf = false /\ (quiescent cf -> all_done (cells cf)).
 Proof.
   intros sh c rows Hg. apply chain_terminates; auto using stages_good, stages_nofault, stages_fresh.
 Qed.
@@ -258,7 +267,7 @@ Qed.
 Lemma read_chain_no_leak : forall sh c rows,
   let c0 := init_config (map MRow rows) (stages_of sh c) in
   Acc (fun c' c1 : configT => step c1 c') c0 /\
-  forall cf, star c0 cf -> stuck cf -> crashed cf = true \/ all_done (cells cf).
+  forall cf, star c0 cf -> quiescent cf -> crashed cf = true \/ all_done (cells cf).
 Proof.
   intros sh c rows. apply chain_no_leak; auto using stages_good, stages_fresh.
 Qed.
@@ -266,68 +275,68 @@ Qed.
 Lemma trace_chain_terminates : forall rows : list spank,
   let c0 := init_config (map MSpanRow rows) trace_stages in
   Acc (fun c' c1 : configT => step c1 c') c0 /\
-  forall cf, star c0 cf -> crashed cf = false /\ (stuck cf -> all_done (cells cf)).
+  forall cf, star c0 cf -> crashed cf = false /\ (quiescent cf -> all_done (cells cf)).
 Proof.
   intros rows. apply chain_terminates; unfold trace_stages.
-  - fcons; [apply oq_good|constructor].
-  - fcons; [apply oq_nofault|constructor].
-  - fcons; [split; reflexivity|constructor].
+  - fcons; [apply oq_good|]. fcons; [apply handler_good|constructor].
+  - fcons; [apply oq_nofault|]. fcons; [apply handler_nofault|constructor].
+  - fcons; [split; reflexivity|]. fcons; [split; reflexivity|constructor].
 Qed.
 
 (* Scan, then ANY number of WrapProcess stages with ANY callbacks, then an encoder *)
 Definition wrap_chain (opsl : list ops) (k : enck) : list (cell st msg) :=
-  recv_cell scan_node :: map (fun o => recv_cell (wrap_node o)) opsl ++ [enc_cell k].
+  recv_cell scan_node :: map (fun o => recv_cell (wrap_node o)) opsl ++ [enc_cell k; handler_cell].
 
 Lemma wrap_chain_good : forall opsl k, Forall (fun x => good_node (c_node x)) (wrap_chain opsl k).
 Proof.
   intros opsl k. unfold wrap_chain. fcons; [apply scan_good|]. apply Forall_app. split.
   - apply Forall_map. apply Forall_forall. intros o _. simpl. apply (wrap_good true).
-  - fcons; [apply enc_good|constructor].
+  - fcons; [apply enc_good|]. fcons; [apply handler_good|constructor].
 Qed.
 Lemma wrap_chain_fresh : forall opsl k, Forall fresh_stage (wrap_chain opsl k).
 Proof.
   intros opsl k. unfold wrap_chain. fcons; [split; reflexivity|]. apply Forall_app. split.
   - apply Forall_map. apply Forall_forall. intros o _. split; reflexivity.
-  - fcons; [split; reflexivity|constructor].
+  - fcons; [split; reflexivity|]. fcons; [split; reflexivity|constructor].
 Qed.
 Lemma wrap_chain_nofault : forall opsl k, Forall ops_nofatal opsl -> Forall (fun x => nofault_node (c_node x)) (wrap_chain opsl k).
 Proof.
   intros opsl k H. unfold wrap_chain. fcons; [apply scan_nofault|]. apply Forall_app. split.
   - apply Forall_map. eapply Forall_impl; [|exact H]. intros o Ho. simpl. apply wrap_nofault. exact Ho.
-  - fcons; [apply enc_nofault|constructor].
+  - fcons; [apply enc_nofault|]. fcons; [apply handler_nofault|constructor].
 Qed.
 
 Lemma wrap_chain_no_leak : forall opsl k rows,
   let c0 := init_config (map MRow rows) (wrap_chain opsl k) in
   Acc (fun c' c1 : configT => step c1 c') c0 /\
-  forall cf, star c0 cf -> stuck cf -> crashed cf = true \/ all_done (cells cf).
+  forall cf, star c0 cf -> quiescent cf -> crashed cf = true \/ all_done (cells cf).
 Proof. intros. apply chain_no_leak; auto using wrap_chain_good, wrap_chain_fresh. Qed.
 
 Lemma wrap_chain_terminates : forall opsl k rows, Forall ops_nofatal opsl ->
   let c0 := init_config (map MRow rows) (wrap_chain opsl k) in
   Acc (fun c' c1 : configT => step c1 c') c0 /\
-  forall cf, star c0 cf -> crashed cf = false /\ (stuck cf -> all_done (cells cf)).
+  forall cf, star c0 cf -> crashed cf = false /\ (quiescent cf -> all_done (cells cf)).
 Proof. intros. apply chain_terminates; auto using wrap_chain_good, wrap_chain_fresh, wrap_chain_nofault. Qed.
 
 (* the executable run used by the correspondence is one of the schedules the theorems speak about *)
 Lemma run_is_a_schedule : forall fuel canc (l : list (cell st msg)) r l',
   run fuel canc l = (r, l') -> r <> RFuel ->
   exists canc' k, star (mkConfig canc false l) (mkConfig canc' k l') /\
-                  (r = RCrash <-> k = true) /\ (k = false -> stuck (mkConfig canc' k l')).
+                  (r = RCrash <-> k = true) /\ (k = false -> quiescent (mkConfig canc' k l')).
 Proof.
   induction fuel as [|f IH]; intros canc l r l' H Hr; simpl in H; [injection H as <- <-; congruence|].
   destruct (sched canc l) as [[[c1 k1] l1]|] eqn:Es.
   - pose proof (sched_sound _ _ _ _ _ _ _ Es) as Hs.
     destruct k1.
     + injection H as <- <-. exists c1, true. split; [|split].
-      * eapply star_step; [|apply star_refl]. split; [reflexivity|exact Hs].
+      * eapply star_step; [|apply star_refl]. split; [reflexivity|left; exact Hs].
       * split; auto.
       * discriminate.
     + destruct (IH _ _ _ _ H Hr) as [c2 [k2 [Hst [Hk Hstuck]]]]. exists c2, k2. split; [|split; assumption].
-      eapply star_step; [|exact Hst]. split; [reflexivity|exact Hs].
+      eapply star_step; [|exact Hst]. split; [reflexivity|left; exact Hs].
   - injection H as <- <-. exists canc, false. split; [apply star_refl|split].
     + split; [destruct (forallb _ l); discriminate|discriminate].
-    + intros _ c' [_ Hs]. simpl in Hs. eapply (sched_complete _ _ _ _ Es). exact Hs.
+    + intros _ canc' k l' Hs. simpl in Hs. eapply (sched_complete _ _ _ _ Es). exact Hs.
 Qed.
 
 (* ------------------------------------------------------------------ what the three protections are for *)
@@ -350,3 +359,47 @@ Definition leaky_chain : list (cell st msg) :=
 Lemma encoder_without_drain_leaks :
   fst (run 1000 false (cells (init_config (map MRow leak_rows) leaky_chain))) = RStuck.
 Proof. vm_compute. reflexivity. Qed.
+
+(* ------------------------------------------------------------------ the hypotheses of the theorems are satisfiable *)
+Definition typical_fix : fpctx := mkFp 1700000040000000000 1700000340000000000 15000000000 60000000000.
+Example fix_guard_typical : fix_guard typical_fix = true.
+Proof. vm_compute. reflexivity. Qed.
+Definition typical_pctx : pctx := mkP typical_fix 100 1700000040000000000 6 false.
+Example shape_guard_typical : forallb (fun sh => shape_guard sh typical_pctx) [ShLog; ShLogJson; ShRate; ShAggJson] = true.
+Proof. vm_compute. reflexivity. Qed.
+Example nofatal_typical : Forall ops_nofatal [parser_ops; limit_ops 100; optimizer_ops; zero_eater_ops].
+Proof. repeat (apply Forall_cons; [auto using parser_nofatal, limit_nofatal, optimizer_nofatal, zero_eater_nofatal|]). constructor. Qed.
+(* a typical request: 250 samples in 3 series through Scan -> ZeroEater -> FixPeriod -> matrix writer *)
+Definition typical_rows : list row :=
+  map (fun i => row_at 1700000040 (1 + i / 100) (i mod 100 * 3) 1 2 ROk) (map Z.of_nat (seq 0 250)).
+Definition typical_request (sh : shape) : request :=
+  mkReq false true (Some sh) 60 (PNum 1700000040) (PNum 1700000340) (PNum 15000) (PNum 100) typical_rows (-1) false.
+Example typical_requests_answered :
+  map (fun sh => model_outcome (typical_request sh)) [ShLog; ShLogJson; ShRate; ShAggJson] = [O2xx; O2xx; O2xx; O2xx].
+Proof. vm_compute. reflexivity. Qed.
+Definition typical_ctx : pctx := match prelude_of (typical_request ShRate) with PRun _ c => c | PResp _ => typical_pctx end.
+Example typical_request_accepted :
+  prelude_of (typical_request ShRate) = PRun ShRate typical_ctx /\ shape_guard ShRate typical_ctx = true.
+Proof. split; vm_compute; reflexivity. Qed.
+
+(* ------------------------------------------------------------------ what speaks for each allow-listed (unrecovered) body *)
+From Qryn Require Import model.ReaderGoroutines.
+
+Definition class_obligation (c : body_class) : Prop :=
+  match c with
+  | BScan => good_node scan_node /\ nofault_node scan_node /\ (forall rows, 0 <= scan_index rows 0 < 100)
+  | BFixPeriod => (forall c, good_node (fixperiod_node c)) /\ (forall c, fix_guard c = true -> nofault_node (fixperiod_node c))
+  | BEncoder => forall k, good_node (enc_node k) /\ nofault_node (enc_node k)
+  (* BDrainer is the drained state of the LTS itself; the remaining classes are accounted by their census only *)
+  | _ => True
+  end.
+
+Lemma allowlisted_bodies_have_their_lemma : forall a, In a allow_list -> class_obligation (a_class a).
+Proof.
+  assert (H : forall c, class_obligation c).
+  { intros c. destruct c; simpl; auto.
+    - split; [apply scan_good|split; [apply scan_nofault|]]. intros rows. apply scan_index_bound. split; [apply Z.le_refl|reflexivity].
+    - split; [apply fix_good|apply fix_nofault].
+    - intros k. split; [apply enc_good|apply enc_nofault]. }
+  intros a _. apply H.
+Qed.
